@@ -233,7 +233,7 @@ func CheckC19(run *evid.Run) {
 	run.Exhaustive = true
 	run.Extra["exhaustive_scope"] = "pair and triple axioms over the stated 108-entry domain are enumerated completely; Sort permutations are complete per sampled multiset; real-history draws are sampled"
 	// Sort: permutations of sub-multisets
-	nsets := pick(run.Tier, 40, 400)
+	nsets := pick(run.Tier, 200, 2000)
 	parallel(nsets, func(i int) {
 		rng := rand.New(rand.NewSource(run.Seed*999331 + int64(i)))
 		k := 2 + rng.Intn(5)
@@ -265,7 +265,7 @@ func CheckC19(run *evid.Run) {
 		}
 	})
 	// real histories
-	nh := pick(run.Tier, 60, 2500)
+	nh := pick(run.Tier, 300, 4000)
 	parallel(nh, func(i int) {
 		h := hx.Gen(run.Seed, i, hx.GenOpts{MaxSteps: 40, Orders: []string{"hash"}})
 		x := hx.NewExec(h)
